@@ -269,6 +269,12 @@ pub struct ConcResult {
     pub missing_penalties: Vec<String>,
     /// Chain events (blocks connected + disconnected) delivered during the threads phase.
     pub chain_events: usize,
+    /// RPCs / block-source calls issued during the threads phase (for outage placement).
+    pub rpcs_in_phase: u64,
+    pub bs_in_phase: u64,
+    /// Was the node still down when the run got stuck?
+    pub node_down_when_stuck: bool,
+    pub replies_during_outage_ok: bool,
 }
 
 fn project(ctx: &TowerCtx, replies: Vec<Vec<String>>, log: &EventLog, from: usize, duration: u32, base_height: u32) -> Projection {
@@ -507,6 +513,13 @@ fn run_scenario_here(sc: &Scenario, strategy: Option<Strategy>, order: Option<&[
                                         sched2.enter(ti);
                                         for (i, op) in ops.iter().enumerate() {
                                             sched2.yield_now();
+                                            if let Op::WaitNodeDown { max } = op {
+                                                let mut n = 0;
+                                                while !node2.lock().faults.down && n < *max {
+                                                    sched2.yield_now();
+                                                    n += 1;
+                                                }
+                                            }
                                             let r = exec_plain(&req2, &api, &node2, op);
                                             out.lock().unwrap_or_else(|e| e.into_inner())[ti][i] = r;
                                         }
@@ -533,6 +546,18 @@ fn run_scenario_here(sc: &Scenario, strategy: Option<Strategy>, order: Option<&[
                         sched.enter(0);
                         for (i, op) in sc.threads[0].iter().enumerate() {
                             sched.yield_now();
+                            if let Op::WaitNodeUp { max } = op {
+                                let mut n = 0;
+                                while (node.lock().faults.down || node.lock().faults.down_at_rpc.is_some() || node.lock().faults.down_at_bs.is_some()) && n < *max {
+                                    sched.yield_now();
+                                    n += 1;
+                                }
+                                // an outage that has not started by now will not start at all
+                                let mut st = node.lock();
+                                st.faults.down_at_rpc = None;
+                                st.faults.down_at_bs = None;
+                                st.faults.down = false;
+                            }
                             let r = match op {
                                 Op::Poll => {
                                     (ctx.poll)();
@@ -569,11 +594,17 @@ fn run_scenario_here(sc: &Scenario, strategy: Option<Strategy>, order: Option<&[
                 }
             }
             let stuck = sched_res.as_ref().map(|s| s.stuck.is_some()).unwrap_or(false);
+            let node_down_when_stuck = stuck && node.lock().faults.down;
+            let rpcs_in_phase = node.lock().rpc_count - rpc_base;
+            let bs_in_phase = node.lock().bs_count - bs_base;
             let had_abort = !aborts.lock().unwrap_or_else(|e| e.into_inner()).is_empty();
             // Let the tower catch up (the node is reachable again by the end of every scenario).
             let mut missing = vec![];
             let mut live = Ok(());
-            if !stuck {
+            // Never run tower code outside the scheduler while the node is flagged unreachable: the code under test may
+            // block for real there (that is one of the things C12 looks for, inside the scheduled phase).
+            let flag_ok = *ctx.reachable.0.lock().unwrap_or_else(|e| e.into_inner());
+            if !stuck && flag_ok {
                 let r = catch_unwind(AssertUnwindSafe(|| {
                     node.lock().faults.down = false;
                     (ctx.poll)();
@@ -586,10 +617,12 @@ fn run_scenario_here(sc: &Scenario, strategy: Option<Strategy>, order: Option<&[
                 }
             }
             let projection = project(ctx, replies, &log, ev_from, sc.cfg.duration, sc.cfg.start_height);
-            if probe && !stuck {
+            if probe && !stuck && flag_ok {
                 live = liveness_probe(&req, ctx, &node, nu, nd);
             } else if stuck {
                 live = Err("stuck".into());
+            } else if !flag_ok {
+                live = Err("node still flagged unreachable after the last poll".into());
             }
             // C12 obligation: every held appointment whose dispute is on the active chain has its penalty at the node
             // (or was refused / is a tracker-less -27 case): computed by the caller from the projection + node state.
@@ -654,6 +687,10 @@ fn run_scenario_here(sc: &Scenario, strategy: Option<Strategy>, order: Option<&[
                     .iter()
                     .filter(|e| matches!(e, Event::BlockEnd { .. } | Event::DisconnectEnd { .. }))
                     .count(),
+                rpcs_in_phase,
+                bs_in_phase,
+                node_down_when_stuck,
+                replies_during_outage_ok: true,
             }
         })
     }));
@@ -688,6 +725,10 @@ fn run_scenario_here(sc: &Scenario, strategy: Option<Strategy>, order: Option<&[
                 node_tip_height: 0,
                 missing_penalties: vec![],
                 chain_events: 0,
+                rpcs_in_phase: 0,
+                bs_in_phase: 0,
+                node_down_when_stuck: false,
+                replies_during_outage_ok: true,
             }
         }
     }
